@@ -343,6 +343,23 @@ fn run_check(id: &str, args: &Args) -> i32 {
             finish(merge("C18", vec![a, b], t0))
         }
         "C19" => c19(args, t0),
+        // debugging aid: the corpus of one check on the async flavour, e.g. `svcheck run A06`
+        a if a.starts_with('A') => {
+            type Mk = fn(&str, model::Flavor) -> checks::Spec;
+            let mk: Mk = match &a[1..] {
+                "01" => checks::c01,
+                "02" => checks::c02,
+                "06" => checks::c06,
+                "08" => checks::c08,
+                "10" => checks::c10,
+                "11" => checks::c11,
+                "12" => checks::c12,
+                _ => checks::c04,
+            };
+            let mut spec = mk(&args.tier, model::Flavor::Async);
+            spec.id = "C19";
+            run_spec(spec, args, t0)
+        }
         "C03" => run_spec(checks::c03(&args.tier, model::Flavor::Sync), args, t0),
         "C04" => run_spec(checks::c04(&args.tier, model::Flavor::Sync), args, t0),
         "C05" => run_spec(checks::c05(&args.tier, model::Flavor::Sync), args, t0),
